@@ -303,7 +303,7 @@ class Norm:
     bind  : {name: Poly} explicit bindings that override everything (loop-variable renaming etc.)
     """
 
-    def __init__(self, scope=None, bind=None, expand=True, max_depth=25, no_expand=()):
+    def __init__(self, scope=None, bind=None, expand=True, max_depth=150, no_expand=()):
         self.scope = scope
         self.bind = dict(bind or {})
         self.expand = expand and scope is not None
